@@ -1138,3 +1138,16 @@ package leveldb
 //@     invariant [C01:every-buffer-is-asked] calls("memGet") == old(calls("memGet")) + (auxm != nil ? 1 : 0) + ((rangeidx >= 1 && em != nil) ? 1 : 0) + ((rangeidx >= 2 && fm != nil) ? 1 : 0)
 //@   at before call (*version).get#1
 //@     assert [C01:buffers-before-tables] calls("memGet") == old(calls("memGet")) + (auxm != nil ? 1 : 0) + (em != nil ? 1 : 0) + (fm != nil ? 1 : 0)
+
+// C20: merging other writers into a write never extends the caller's batch: merged single records go to a batch
+// the DB owns (the one passed as ourBatch, or one from the pool; that the pool does not hand out the caller's batch
+// is assumed).
+//@ func (*DB).writeLocked
+//@   props C20
+//@   loop 1
+//@     invariant [C20:scratch-batch-is-not-the-callers] ourBatch == old(ourBatch) || ourBatch != batch
+//@   at call sync.Pool.Get#1
+//@     assume [C20:pool-does-not-hand-out-the-callers-batch] result != batch
+//@   at before call (*Batch).appendRec#1
+//@     assume [C20:merged-record-does-not-point-into-the-scratch-batch] !sameblock(incoming.key, ourBatch.data) && !sameblock(incoming.value, ourBatch.data) && len(incoming.key) <= 1099511627776 && len(incoming.value) <= 1099511627776 && len(ourBatch.data) <= 1099511627776
+//@     assert [C20:callers-batch-not-extended] recv != batch || old(ourBatch) == batch
